@@ -48,6 +48,18 @@ theorem base_registration_runs_first (H : Hier) (w : Bool) (c b d f g : Nat) (l1
   rw [h, hb, hd]
   simp [List.append_assoc]
 
+/-- **a class's registrations run between those of its bases and those of its subclasses** — the situation of the
+library's only built-in processor: the auto-rotator factory `r` registered on `BaseRollPass` (= `m`) runs AFTER every
+registration `f` on a base `b` of `BaseRollPass` (`Unit`, `DeformationUnit`, `DiskElementUnit`) and BEFORE every
+registration `g` on a subclass `d` (`SymmetricRollPass`, `TwoRollPass`, user classes), for every class `c` below -/
+theorem registration_between_base_and_subclass (H : Hier) (w : Bool) (c b m d f r g : Nat) (l1 l2 l3 l4 : List Nat)
+    (ho : OwnLists H w c) (hm : H.mro c = l1 ++ d :: (l2 ++ m :: (l3 ++ b :: l4)))
+    (hf : f ∈ ownList H w b) (hr : r ∈ ownList H w m) (hg : g ∈ ownList H w d) :
+    Before (walk H w c) f r ∧ Before (walk H w c) r g := by
+  constructor
+  · exact base_registration_runs_first H w c b m f r (l1 ++ d :: l2) l3 l4 ho (by rw [hm]; simp) hf hr
+  · exact base_registration_runs_first H w c m d r g l1 l2 (l3 ++ b :: l4) ho hm hr hg
+
 /-- **registration order within a class**: a registration on a class with its own list lands at the END of that
 list and nowhere else -/
 theorem registration_order_within_class (H : Hier) (w : Bool) (c f : Nat) (l t : List Nat)
@@ -420,6 +432,35 @@ theorem pre_before_own_before_post (E : Env) (st : RState) (u inp : Nat) :
   · rw [initSolve_evs]; exact chain_consults _ _ _ _ _ _
   · rw [initSolve_evs]; exact chain_threads _ _ _ _ _ _
 
+/-- **what runs at a solve is what the factories return at THAT solve**: from ANY state `st` – in particular the state
+an earlier solve of the same unit left behind – `solve` consults every factory of both walks again and runs exactly
+the processors the factories return now (`E.fac` = the factories' answers for the unit as it is at this solve) -/
+theorem solve_runs_what_factories_return_now (E : Env) (st : RState) (u inp : Nat) :
+    ∃ pre post lv, (solveLeaf E st u inp).2.2 = .enter u inp :: pre ++ .own u :: (post ++ [lv]) ∧ lv.phase = none ∧
+      consults pre = walk E.H true (E.ucls u) ∧
+      procsRun pre = (walk E.H true (E.ucls u)).filterMap (fun f => E.fac f u) ∧
+      consults post = walk E.H false (E.ucls u) ∧
+      procsRun post = (walk E.H false (E.ucls u)).filterMap (fun f => E.fac f u) := by
+  rw [solveLeaf_eq]
+  refine ⟨(initSolve E st u inp).2, (postChain E (ownStep (initSolve E st u inp).1 u) u).2.2,
+    leaveEv E (ownStep (initSolve E st u inp).1 u) u, rfl, rfl, ?_, ?_, chain_consults _ _ _ _ _ _,
+    chain_procsRun _ _ _ _ _ _⟩
+  · rw [initSolve_evs]; exact chain_consults _ _ _ _ _ _
+  · rw [initSolve_evs]; exact chain_procsRun _ _ _ _ _ _
+
+/-- **a later solve of the same unit asks the factories again**: after a solve under `E` (the factories' answers
+then), a solve under `E'` (same classes, the factories answer differently because the unit's state changed) runs the
+processors `E'` gives – nothing of the earlier answers is kept: a factory that returned a processor before and
+returns nothing now is skipped, one that returned nothing before and returns a processor now has it run -/
+theorem resolve_asks_factories_again (E E' : Env) (st : RState) (u inp inp' : Nat) :
+    ∃ pre post lv, (solveLeaf E' (solveLeaf E st u inp).1 u inp').2.2 =
+        .enter u inp' :: pre ++ .own u :: (post ++ [lv]) ∧ lv.phase = none ∧
+      consults pre = walk E'.H true (E'.ucls u) ∧
+      procsRun pre = (walk E'.H true (E'.ucls u)).filterMap (fun f => E'.fac f u) ∧
+      consults post = walk E'.H false (E'.ucls u) ∧
+      procsRun post = (walk E'.H false (E'.ucls u)).filterMap (fun f => E'.fac f u) :=
+  solve_runs_what_factories_return_now E' (solveLeaf E st u inp).1 u inp'
+
 /-- **inside a sequence**: the sequence's own pre-chain, then its iterations (each: own marker, then the members in
 list order, each member a complete `solve` of its own that receives what its predecessor returned), then the
 sequence's post-chain -/
@@ -462,26 +503,35 @@ theorem sequence_consults_own_classes (E : Env) (st : RState) (s : Nat) (subs : 
 
 /-! ## 8. The hypothesis `OwnLists` cannot be dropped (observation O1 of notes/C18.md) -/
 
-/-- the four library classes of the harness preamble (`Unit`, `PassSequence`, `DiskElementUnit`, `Transport`,
-`Rotator`), then `A(Unit)` whose `__init_subclass__` does not call `super()`, then `B(A)`; a pre-processor factory
-`0` registered on `A`, a post-processor factory `1` registered through `B`.  (Corpus history 4 of
-driver/props/c18.py — the implementation shows exactly this behaviour.) -/
-def swallowOps : List COp :=
+/-- the preamble of the harness: the library's unit classes `Unit`=0, `PassSequence`=1, `DiskElementUnit`=2,
+`Transport`=3, `Rotator`=4, `DeformationUnit`=5, `BaseRollPass`=6, `SymmetricRollPass`=7, `TwoRollPass`=8,
+`ThreeRollPass`=9, `CoolingPipe`=10 with their real MRO tails, and the one registration the library makes itself:
+the auto-rotator factory (id 900) as pre-processor on `BaseRollPass`.  (driver/props/c18.py derives the same lines
+from the real classes on every run and sends them to the model.) -/
+def libOps : List COp :=
   [.defClass [] .unitImpl true, .defClass [0] .absent false, .defClass [0] .absent false,
-   .defClass [2, 0] .absent false, .defClass [0] .absent false,
-   .defClass [0] .noncoop false, .defClass [5, 0] .absent false,
-   .register true 5 0, .register false 6 1]
+   .defClass [2, 0] .absent false, .defClass [0] .absent false, .defClass [0] .absent false,
+   .defClass [2, 5, 0] .absent false, .defClass [6, 2, 5, 0] .absent false, .defClass [7, 6, 2, 5, 0] .absent false,
+   .defClass [7, 6, 2, 5, 0] .absent false, .defClass [3, 2, 0] .absent false,
+   .register true 6 900]
+
+/-- the library classes, then `A(Unit)`=11 whose `__init_subclass__` does not call `super()`, then `B(A)`=12; a
+pre-processor factory `0` registered on `A`, a post-processor factory `1` registered through `B`.  (Corpus history 4
+of driver/props/c18.py — the implementation shows exactly this behaviour.) -/
+def swallowOps : List COp :=
+  libOps ++ [.defClass [0] .noncoop false, .defClass [11, 0] .absent false,
+   .register true 11 0, .register false 12 1]
 
 /-- `B` got no lists of its own, so (i) the `getattr` walk yields `A`'s factory a second time for instances of `B`,
 where the specification has it once, and (ii) the registration made through `B` landed in `A`'s list and applies
 to instances of the BASE class `A`.  `OwnLists` fails for `B`, and the history is not cooperative. -/
 theorem getattr_walk_consults_twice :
-    walk (run init swallowOps) true 6 = [0, 0] ∧ yieldOf (run init swallowOps) true 6 = [0] ∧
-    (run init swallowOps).lists false 6 = none ∧ walk (run init swallowOps) false 5 = [1] ∧
-    ¬ OwnLists (run init swallowOps) true 6 ∧ ¬ CoopRun init swallowOps := by
+    walk (run init swallowOps) true 12 = [0, 0] ∧ yieldOf (run init swallowOps) true 12 = [0] ∧
+    (run init swallowOps).lists false 12 = none ∧ walk (run init swallowOps) false 11 = [1] ∧
+    ¬ OwnLists (run init swallowOps) true 12 ∧ ¬ CoopRun init swallowOps := by
   refine ⟨by decide, by decide, by decide, by decide, ?_, ?_⟩
   · intro h
-    have := h.own 6 (by decide) (by decide)
+    have := h.own 12 (by decide) (by decide)
     revert this
     decide
   · decide
@@ -547,6 +597,36 @@ example : (solveLeaf exE exSt 0 0).2.2 =
        [.proc 110, .proc 111, .proc 116, .own 0]] := by decide
 
 example : exE.fac 12 0 = none ∧ 0 < exSt.heap.n := by decide
+
+/-- `solve_runs_what_factories_return_now`, `resolve_asks_factories_again`: unit 0 (class `D`) solved under `exE`,
+then – its state changed – under `exE'` where factory 11 (a processor before) returns nothing and factory 12 (nothing
+before) returns processor 112, likewise 14 / 15 of the post-processors.  (Corpus history 5 of driver/props/c18.py
+does the same on the implementation with `setflag`.) -/
+def exE' : Env :=
+  { exE with fac := fun f _ => if f = 11 ∨ f = 14 then none else some (f + 100) }
+
+example : procsRun (solveLeaf exE exSt 0 0).2.2 = [110, 111, 116, 113, 114] ∧
+    procsRun (solveLeaf exE' (solveLeaf exE exSt 0 0).1 0 0).2.2 = [110, 112, 116, 113, 115] ∧
+    consults (solveLeaf exE' (solveLeaf exE exSt 0 0).1 0 0).2.2 = [10, 11, 12, 16, 13, 14, 15] := by decide
+
+/-- `registration_between_base_and_subclass` on the library's hierarchy: `K(TwoRollPass)`=11, `L(K)`=12 defined after
+the library classes; registrations on `TwoRollPass`, `DeformationUnit`, `Unit`, `BaseRollPass` (after the library's
+own 900), `DiskElementUnit`, `L`.  The history is cooperative, so `OwnLists` holds for `L`; `BaseRollPass` (=6) stands
+behind `TwoRollPass` (=8) and before `DeformationUnit` (=5) in the MRO of `L`; the walk has the auto-rotator after the
+registrations on `Unit`, `DeformationUnit`, `DiskElementUnit` and before those on `BaseRollPass` (later), `TwoRollPass`,
+`L`.  (Corpus history 7 of driver/props/c18.py solves real roll passes of these classes.) -/
+def rollOps : List COp :=
+  libOps ++ [.defClass [8, 7, 6, 2, 5, 0] .absent false, .defClass [11, 8, 7, 6, 2, 5, 0] .absent false,
+   .register true 8 4, .register true 5 1, .register true 0 0, .register true 6 2, .register true 2 3,
+   .register true 12 5]
+
+example : CoopRun init rollOps := by decide
+example : OwnLists (run init rollOps) true 12 := coop_history_ownLists rollOps (by decide) true 12 (by decide)
+example : (run init rollOps).mro 12 = [12, 11] ++ 8 :: ([7] ++ 6 :: ([2] ++ 5 :: [0])) := by decide
+example : 1 ∈ ownList (run init rollOps) true 5 ∧ 900 ∈ ownList (run init rollOps) true 6 ∧
+    4 ∈ ownList (run init rollOps) true 8 := by decide
+example : walk (run init rollOps) true 12 = [0, 1, 3, 900, 2, 4, 5] ∧ walk (run init rollOps) true 9 = [0, 1, 3, 900, 2] ∧
+    walk (run init rollOps) true 10 = [0, 3] ∧ walk (run init rollOps) true 4 = [0] := by decide
 
 /-- `seq_pre_before_own_before_post`, `sequence_consults_own_classes`: sequence 2 (class `C`) with members 0 and 1,
 two iterations -/
